@@ -434,16 +434,17 @@ DelItem(doc, sect, i, f)    == Set(doc, sect, [doc[sect] EXCEPT ![i] = Del(@, f)
 
 DupNames(doc) == {n \in {KubeName(Kubes(doc)[i]) : i \in 1..Len(Kubes(doc))} : NameCount(doc, n) > 1}
 
-BadLabelSels == {
-  <<"labelSelector-operator", [matchExpressions |-> <<[key |-> "tier", operator |-> "Near", values |-> <<"cache">>]>>]>>,
-  <<"labelSelector-in-without-values", [matchExpressions |-> <<[key |-> "tier", operator |-> "In"]>>]>>,
-  <<"labelSelector-exists-with-values", [matchExpressions |-> <<[key |-> "tier", operator |-> "Exists", values |-> <<"cache">>]>>]>>,
-  <<"labelSelector-bad-key", [matchExpressions |-> <<[key |-> "bad key!", operator |-> "Exists"]>>]>>,
-  <<"labelSelector-bad-value", [matchLabels |-> [tier |-> "not a label value!"]]>>,
-  <<"labelSelector-bad-label-key", [matchLabels |-> One("bad key!", "cache")]>>,
-  <<"labelSelector-unknown-field", [matchLabels |-> [tier |-> "cache"], matchFields |-> <<>>]>>,
-  <<"labelSelector-expr-unknown-field", [matchExpressions |-> <<[key |-> "tier", operator |-> "Exists", foo |-> "bar"]>>]>>,
-  <<"labelSelector-expr-no-key", [matchExpressions |-> <<[operator |-> "Exists"]>>]>> }
+BadLabelSelsRaw == {
+  <<"operator", [matchExpressions |-> <<[key |-> "tier", operator |-> "Near", values |-> <<"cache">>]>>]>>,
+  <<"in-without-values", [matchExpressions |-> <<[key |-> "tier", operator |-> "In"]>>]>>,
+  <<"exists-with-values", [matchExpressions |-> <<[key |-> "tier", operator |-> "Exists", values |-> <<"cache">>]>>]>>,
+  <<"bad-key", [matchExpressions |-> <<[key |-> "bad key!", operator |-> "Exists"]>>]>>,
+  <<"bad-value", [matchLabels |-> [tier |-> "not a label value!"]]>>,
+  <<"bad-label-key", [matchLabels |-> One("bad key!", "cache")]>>,
+  <<"unknown-field", [matchLabels |-> [tier |-> "cache"], matchFields |-> <<>>]>>,
+  <<"expr-unknown-field", [matchExpressions |-> <<[key |-> "tier", operator |-> "Exists", foo |-> "bar"]>>]>>,
+  <<"expr-no-key", [matchExpressions |-> <<[operator |-> "Exists"]>>]>> }
+BadLabelSels == {<<"labelSelector-" \o x[1], x[2]>> : x \in BadLabelSelsRaw}
 
 BadFieldSels == {
   <<"fieldSelector-operator", [matchExpressions |-> <<[field |-> "status.phase", operator |-> "In", value |-> "Pending"]>>]>>,
@@ -590,7 +591,26 @@ V0KubeFaults(doc, i) ==
     <<"v0/onKubernetesEvent/event-v1-name", SetItem(doc, "onKubernetesEvent", i, "event", <<"Added">>)>>,
     <<"v0/onKubernetesEvent/allowFailure-string", SetItem(doc, "onKubernetesEvent", i, "allowFailure", "yes")>> }
 
+(* unknown keys inside the items: a slip, or - the realistic case - keys of the v1 format in a document whose configVersion
+   was forgotten (`queue`, `group`, `includeSnapshotsFrom` of a schedule; `apiVersion` of a kubernetes binding) *)
+V0SchedKeyFaults(doc, i) ==
+  {<<"v0/unknown-item-key/schedule", SetItem(doc, "schedule", i, x[1], x[2])>> :
+     x \in {<<"foo", "bar">>, <<"queue", "q1">>, <<"group", "g">>, <<"includeSnapshotsFrom", <<"monitor pods">> >>}}
+V0KubeKeyFaults(doc, i) ==
+  {<<"v0/unknown-item-key/kube", SetItem(doc, "onKubernetesEvent", i, x[1], x[2])>> :
+     x \in {<<"foo", "bar">>, <<"apiVersion", "v1">>, <<"queue", "q1">>, <<"executeHookOnEvent", <<"Added">> >>}}
+
+(* invalid label selectors in `selector`: the classes of the v1 format + NotIn without values *)
+V0BadSels == BadLabelSelsRaw \cup
+  {<<"notin-without-values", [matchExpressions |-> <<[key |-> "tier", operator |-> "NotIn"]>>]>>}
+V0SelectorFaults(doc, i) ==
+  {<<"v0/invalid-selector/" \o x[1], SetItem(doc, "onKubernetesEvent", i, "selector", x[2])>> : x \in V0BadSels}
+
 FaultsV0(doc) ==
+  SectFaults(doc, "schedule", V0SchedKeyFaults)
+  \cup SectFaults(doc, "onKubernetesEvent", V0KubeKeyFaults)
+  \cup SectFaults(doc, "onKubernetesEvent", V0SelectorFaults)
+  \cup
   { <<"v0/top/unknown-field", Set(doc, "foo", "@n1")>>,
     <<"v0/top/unknown-field-v1-key", Set(doc, "kubernetes", <<[kind |-> "Pod"]>>)>>,
     <<"v0/version/unsupported", Set(doc, "configVersion", "v0")>>,
